@@ -62,6 +62,8 @@ def replay(run, f, tv):
     # (1) the step itself, dt = T
     x1 = f(x0, a, phi, g, T)
     check(x1, "dt=T")
+    from harness import cas as _cas
+    _cas.named_probe(f, [x0, a, phi, [g], [T]], [np.array(x1).flatten()])       # the same call by argument NAME
     # (1b) the same step through SE23Mrp.exp_mixed (MRP attitude; skipped when the pre-attitude has no MRP)
     qp = tv["pre"]["q"]; qn = tv["post"]["q"]
     mrp_singular = lambda q: q[1] == 0 and q[2] == 0 and q[3] == 0 and q[0] < 0     # 360-degree MRP singularity (inherent)
